@@ -28,6 +28,9 @@ CONSTANTS
     Huge,       \* a request of >= Huge bytes may be answered null without any OS refusal
     Gran,       \* granularity of the allocator's OS requests (64 KiB in the code); unit of C04 bounds
     Slack,      \* book-keeping bytes a free extent may lose (headers, fences, segment record)
+    DirectMap,  \* requests of >= DirectMap bytes may be served by a dedicated OS mapping (dlmalloc's
+                \* mmap threshold: such a block is handed back to the OS when it is freed); they are
+                \* not judged by NoGratuitousMap - Envelope and SteadyState still bound them
     EnvK, EnvC, \* envelope: footprint <= EnvK * peak padded demand + EnvC
     \* ---- only used by the bounded design (Next), not by the trace specification ----
     Ids,        \* block identities
@@ -113,6 +116,7 @@ Need(size, align) == size + 2 * align + Slack
 Fits(size, align) == \E p \in pieces : MaxGap(p) >= Need(size, align)
 \* an OS request made by the call in progress although its request fits into held free space
 Gratuitous == /\ call.op \in AllocOps \cup {"realloc"}
+              /\ call.size < DirectMap
               /\ Fits(call.size, call.align)
 
 -----------------------------------------------------------------------------
